@@ -78,5 +78,5 @@ func runCopyOnly(c *Ctx) {
 // per-type rule information is shared by all calls through the type cache, so writing a
 // per-call override (or anything else) into it changes which rules later calls evaluate.
 func sharedDeclaredRules(c *Ctx) {
-	importRules(c, "C08", runCopyOnly, c.Prop+"-DECLARED", "each call is judged by the rules declared for it: the per-type rule information shared through the type cache is never written by a walker (per-call overrides go to a local copy) — rule C08-COPY", 1, nil)
+	importRules(c, "C08", runC08, c.Prop+"-DECLARED", "each call is judged by the rules declared for it under the tag name it asked for: the per-type rule information shared through the type cache is never written by a walker (per-call overrides go to a local copy) and is keyed by the struct type AND the requested tag name — rules C08-COPY, C08-KEY", 2, ruleIn("C08-COPY", "C08-KEY"))
 }
